@@ -14,6 +14,7 @@ import (
 	"reflect"
 	"sort"
 	"strings"
+	"unicode"
 
 	"github.com/hashicorp/hcl/v2"
 	"github.com/hashicorp/hcl/v2/gohcl"
@@ -296,7 +297,41 @@ func classFor(clause string, d Data, doc *Body) string {
 	if c := strings.Replace(clause, "-merged", "", 1); (c == "json-template-value-mismatch" || c == "hclsimple-json-template-value-mismatch") && loneCRThenDoubledIntroducer(doc) {
 		return "c16.json-template-value-mismatch.lone-cr-then-doubled-introducer"
 	}
-	return "c16." + clause + "." + d.Family
+	cls := "c16." + clause + "." + d.Family
+	if anyString(doc, func(s string) bool {
+		for _, r := range s {
+			if r >= 0x80 && !unicode.IsPrint(r) {
+				return true
+			}
+		}
+		return false
+	}) {
+		// some string of the value (label, attribute value, element, key)
+		// contains a non-ASCII rune that is not unicode.IsPrint
+		cls += ".nonprint-multibyte-rune"
+	}
+	return cls
+}
+
+// anyString: pred holds for some string anywhere in the document, labels included.
+func anyString(b *Body, pred func(string) bool) bool {
+	if anyExprString(b, pred) {
+		return true
+	}
+	for _, it := range b.Items {
+		if !it.Block {
+			continue
+		}
+		for _, l := range it.Labels {
+			if pred(l) {
+				return true
+			}
+		}
+		if anyString(it.Body, pred) {
+			return true
+		}
+	}
+	return false
 }
 
 // ---- oracle 1 and 2: the inverse law ---------------------------------------
